@@ -59,7 +59,20 @@ def clearly_different(a, b):
             return True
     except Exception:
         pass
-    return bool((nf(a).has(sp.Min, sp.Max)) != (nf(b).has(sp.Min, sp.Max)))
+    # one side is written with min/max (another distribution of the remainder): different only if a point of the domain shows it
+    # (0 <= r < p, 0 <= k <= p, 0 <= R < p, q >= 0): a counterexample in the two FORMULAS, no code is run
+    if bool((nf(a).has(sp.Min, sp.Max)) != (nf(b).has(sp.Min, sp.Max))):
+        for p_, r_, q_ in ((2, 1, 1), (3, 1, 2), (3, 2, 1), (4, 3, 2)):
+            for k_ in range(p_ + 1):
+                for R_ in range(p_):
+                    try:
+                        v = d.subs({_p: p_, _r: r_, _q: q_, _k: k_, _R: R_})
+                        v = sp.simplify(v)
+                    except Exception:
+                        continue
+                    if v.is_number and v != 0:
+                        return True
+    return False
 
 
 class Tab:
@@ -227,6 +240,12 @@ class SplitModel:
             return _p
         if s == f"myRanks[{ax}]":
             return _R
+        if s in (f"self._mpi_starts[{ax}]", f"self._mpi_lengths[{ax}]", "self._mpi_starts[-1]", "self._mpi_lengths[-1]"):
+            # the per-rank table of this axis, appended earlier in the same iteration (entry `ax` = the last one appended)
+            key = s.split("[")[0][len("self._"):]
+            if key in self.sinks:
+                return self.sinks[key][0]
+            raise Unknown(f"`{src(e)}` read before it is appended")
         if s in (f"self._starts[{ax}]", f"self._ends[{ax}]", f"self._shape[{ax}]", f"self._max_shape[{ax}]"):
             key = s.split("[")[0][len("self._"):]
             if key in self.sinks:
@@ -525,10 +544,21 @@ def split_formula(chk):
     bad = []
     for nm in sorted(chain):
         for x in ast.walk(m.defs[nm].value):
+            # ASSUMPTION of the diagnosis: a ROUNDED intermediate result enters further arithmetic or a rounding whose outcome depends
+            # on the last bit.  `int(a / b)` / `floor(a / b)` / `(a / b) // 1` of two integer expressions is exact for operands below
+            # 2**53 (the quotient is correctly rounded and is not within 1/b of the next integer unless it is one): not reported;
+            # int()/astype() of an integer expression are conversions, not roundings
             if isinstance(x, ast.BinOp) and isinstance(x.op, ast.Div):
-                bad.append(f"true division in `{nm} = {src(m.defs[nm].value)}`")
-            if isinstance(x, ast.Call) and (src(x.func) in ("float", "np.floor", "np.round", "round", "np.rint", "np.ceil", "int", "math.floor") or
-                                            (isinstance(x.func, ast.Attribute) and x.func.attr == "astype")):
+                par = parent(x)
+                direct = isinstance(par, ast.Call) and len(par.args) == 1 and par.args[0] is x and \
+                    src(par.func) in ("int", "np.floor", "math.floor", "np.int64", "floor") and \
+                    not any(isinstance(y, ast.BinOp) and isinstance(y.op, ast.Div) and y is not x for y in ast.walk(x))
+                if not direct:
+                    bad.append(f"true division in `{nm} = {src(m.defs[nm].value)}`")
+            if isinstance(x, ast.Call) and src(x.func) in ("float", "np.float64", "np.round", "round", "np.rint", "np.ceil", "math.ceil") and x.args \
+                    and any(isinstance(y, ast.BinOp) and isinstance(y.op, ast.Div) for y in ast.walk(x)):
+                bad.append(f"float round-trip `{src(x)[:50]}` in `{nm}`")
+            elif isinstance(x, ast.Call) and src(x.func) in ("float", "np.float64") and x.args:
                 bad.append(f"float round-trip `{src(x)[:50]}` in `{nm}`")
     bad = list(dict.fromkeys(bad))
     chk.ob("P2-integer-arithmetic", node, src(node), not bad,
@@ -539,8 +569,18 @@ def split_formula(chk):
     wrong = getattr(m, "wrong", [])
     dl = sp.simplify(T.length - (_p + 1))
     okshape = dl == 0 and T.expr.has(_n) and not wrong
+    # ASSUMPTION (WrongForm): the extent is literally len(eta_grids[<loop counter>]) - the extent of DIMENSION i used for layout AXIS i
     badshape = wrong[0][1] if wrong else None
-    if badshape is None and dl != 0 and dl.is_number:
+    # ASSUMPTION of the table-shape / endpoint diagnoses: `T` is the table of block boundaries (not e.g. a table of block lengths from
+    # which the starts are accumulated): it has p+1 entries, or the stored per-rank starts are its own leading entries, or the code reads
+    # entry `k+1` / the slice `[1:]` of it (the end of block k); otherwise the role of the table is not known: undecided
+    ms = m.sinks.get("mpi_starts", (None, None))[0]
+    reads_next = any(isinstance(x, ast.Subscript) and isinstance(x.value, ast.Name) and x.value.id == name and
+                     ((isinstance(x.slice, ast.Slice) and x.slice.lower is not None and src(x.slice.lower) == "1") or
+                      (isinstance(x.slice, ast.BinOp) and isinstance(x.slice.op, ast.Add) and "1" in (src(x.slice.left), src(x.slice.right))))
+                     for st_ in m.loop.body for x in ast.walk(st_))
+    is_bounds = dl == 0 or (isinstance(ms, Tab) and same(ms.expr, T.expr)) or reads_next
+    if badshape is None and dl != 0 and dl.is_number and reads_next:
         badshape = (f"the table has {T.length} entries: p blocks have p+1 boundaries (one start per rank plus the end of the last block); "
                     "the end of the last rank's block / the last length is read beyond the table")
     chk.pat("P2-table-shape", node, "ranks = arange(0, p+1); n = len(eta_grids[dims_order[i]])", okshape,
@@ -552,9 +592,9 @@ def split_formula(chk):
     def closed(x):
         return not x.has(sp.floor) and not x.has(sp.ceiling)
     chk.pat("P2-partition-endpoints", node, "starts[0] == 0", ok0, "the first block starts at 0",
-            None if ok0 or not closed(e0) else f"starts[0] normalises to {e0}: the first block does not start at index 0", **kw)
+            None if ok0 or not closed(e0) or not is_bounds else f"starts[0] normalises to {e0}: the first block does not start at index 0", **kw)
     chk.pat("P2-partition-endpoints", node, "starts[p] == n", okp, "the last block ends at n (no gap, no overshoot)",
-            None if okp or not closed(ep) else f"starts[p] normalises to {ep.subs({_q * _p + _r: _n})}, not n = q*p + r: the blocks do not tile [0, n)",
+            None if okp or not closed(ep) or not is_bounds or dl != 0 else f"starts[p] normalises to {ep.subs({_q * _p + _r: _n})}, not n = q*p + r: the blocks do not tile [0, n)",
             **kw)
     forms = [_q * _k + sp.floor(_r * _k / _p)]
     bal = any(sp.simplify(nf(E) - f) == 0 for f in forms)
@@ -580,9 +620,116 @@ def _cmp(chk, rule, node, construct, got, want, good, what, **kw):
         chk.ob(rule, node, construct, None, f"{what} is `{got}`, which could not be compared with the table entry `{want}`", **kw)
 
 
+def _body_paths(stmts, limit=64):
+    """the ways through the body of the per-axis loop with its `if` statements resolved one way or the other:
+    [([(test, polarity)], [simple statements], how the iteration ends: None | 'continue' | 'break' | 'return')]; None beyond `limit`"""
+    paths = [([], [], None)]
+    for st in stmts:
+        live = [p_ for p_ in paths if p_[2] is None]
+        done = [p_ for p_ in paths if p_[2] is not None]
+        if not live:
+            break
+        if isinstance(st, ast.If):
+            new = []
+            for pol, body in ((True, st.body), (False, st.orelse)):
+                sub = _body_paths(body, limit)
+                if sub is None:
+                    return None
+                for conds, sofar, _ in live:
+                    for c2, s2, e2 in sub:
+                        new.append((conds + [(st.test, pol)] + c2, sofar + s2, e2))
+            paths = done + new
+            if len(paths) > limit:
+                return None
+        elif isinstance(st, (ast.Continue, ast.Break, ast.Return, ast.Raise)):
+            how = {ast.Continue: "continue", ast.Break: "break", ast.Return: "return", ast.Raise: "raise"}[type(st)]
+            paths = done + [(c, s_, how) for c, s_, _ in live]
+        else:
+            paths = done + [(c, s_ + [st], None) for c, s_, _ in live]
+    return paths
+
+
+def per_axis_appends(chk, m):
+    """P2-table-per-axis: the per-rank tables are lists with one entry PER AXIS, appended in the per-axis loop and read by axis position
+    (mpi_starts(i) / mpi_lengths(i), P2-accessor): every way through one iteration must append exactly one entry to each of them (must-
+    write analysis over the paths of the loop body; a path is reported only when a point of the domain n >= p >= 1, 0 <= R < p satisfies
+    the tests it assumes)"""
+    kw = dict(file=U.LAYOUT, func=Q_INIT)
+    rule = "P2-table-per-axis"
+    lp = m.loop
+    tabs = [k for k in ("mpi_starts", "mpi_lengths") if any(isinstance(c, ast.Call) and isinstance(c.func, ast.Attribute) and c.func.attr == "append"
+                                                         and src(c.func.value) == f"self._{k}" for c in ast.walk(lp))]
+    if not tabs:
+        return          # the tables are not built by appending in this loop: nothing to say here
+    paths = _body_paths(lp.body)
+    if paths is None:
+        chk.ob(rule, lp, "one entry per axis appended to self._mpi_starts / self._mpi_lengths", None, "too many ways through the per-axis loop body", **kw)
+        return
+
+    def n_appends(stmts, k):
+        return sum(1 for st in stmts for c in ast.walk(st) if isinstance(c, ast.Call) and isinstance(c.func, ast.Attribute) and c.func.attr == "append"
+                   and src(c.func.value) == f"self._{k}")
+    bad, und = [], []
+    for conds, stmts, how in paths:
+        if how == "raise":
+            continue
+        for k in tabs:
+            cnt = n_appends(stmts, k)
+            if cnt == 1:
+                continue
+            if any(isinstance(st, (ast.For, ast.While)) and n_appends([st], k) for st in stmts):
+                und.append(f"self._{k} is appended inside an inner loop")
+                continue
+            where = " and ".join(("" if pol else "not ") + "(" + src(t)[:50] + ")" for t, pol in conds) or "every iteration"
+            # is the path feasible?  the tests it assumes, read as relations between n, p and R, must hold at some point of the domain
+            rels, readable = [], True
+            for t, pol in conds:
+                try:
+                    r_ = m.cond(t)
+                    rels.append(r_ if pol else sp.Not(r_))
+                except Exception:
+                    readable = False
+            witness = None
+            if readable:
+                for p_ in (1, 2, 3):
+                    for n_ in range(p_, p_ + 4):
+                        for R_ in range(p_):
+                            try:
+                                if all(bool(r_.subs({_n: n_, _p: p_, _R: R_})) for r_ in rels):
+                                    witness = (n_, p_, R_)
+                                    break
+                            except Exception:
+                                pass
+                        if witness:
+                            break
+                    if witness:
+                        break
+            if witness is None:
+                und.append(f"when {where} the iteration appends {cnt} entries to self._{k}; whether that case can occur was not established")
+                continue
+            bad.append(f"when {where} (e.g. extent {witness[0]} on {witness[1]} process(es)) the iteration " +
+                       (f"ends with `{how}` and " if how else "") + f"appends {cnt} entr{'y' if cnt == 1 else 'ies'} to self._{k} instead of one: the list "
+                       f"is read by AXIS position (mpi_{k[4:]}(i) returns self._{k}[i]), so the tables of all later axes are shifted and the list is "
+                       "shorter/longer than the number of axes - the transposes cut and place blocks with another axis's partition (or IndexError)")
+    if bad:
+        chk.ob(rule, lp, "one entry per axis appended to self._mpi_starts / self._mpi_lengths", False, "; ".join(dict.fromkeys(bad)), **kw)
+    elif und:
+        chk.ob(rule, lp, "one entry per axis appended to self._mpi_starts / self._mpi_lengths", None, "cannot decide: " + "; ".join(dict.fromkeys(und)), **kw)
+    else:
+        chk.ob(rule, lp, "one entry per axis appended to self._mpi_starts / self._mpi_lengths", True,
+               f"every way through the loop body ({len(paths)}) appends exactly one entry to each per-rank table", **kw)
+
+
 def table_structure(chk, m):
     fn = chk.func(U.LAYOUT, Q_INIT)
     kw = dict(file=U.LAYOUT, func=Q_INIT)
+    if m.loop is not None:
+        per_axis_appends(chk, m)
+        # ASSUMPTION of the HOLDS verdicts below: the loop body consists of statements the model reads; anything else is said
+        unread = [msg for k_, msg in m.problems if k_ == "stmt"]
+        if unread:
+            chk.ob("P2-one-table", m.loop, "every statement of the per-axis loop is read", None,
+                   "the per-axis loop contains statements the symbolic model does not read (their effect on the tables is not known): " + "; ".join(unread)[:300], **kw)
     if m.loop is not None and m.table is not None:
         name, T, node = m.table
         lp = m.loop
@@ -627,6 +774,7 @@ def table_structure(chk, m):
             if any(g == f or sp.simplify(g - f) == 0 for f in good_forms):
                 okm = True
             elif sp.simplify(g - _q) == 0:
+                # ASSUMPTION: the stored expression normalises exactly to floor(n/p) (resp. floor(n/p)+1) for all n, p
                 badm = ("max_block_shape is floor(n/p): when n is not a multiple of p the largest block has floor(n/p)+1 points, the padded "
                         "exchange blocks and the buffers sized from max_block_shape are one slab too small")
             elif sp.simplify(g - _q - 1) == 0:
@@ -655,6 +803,8 @@ def table_structure(chk, m):
             if same(v[1], want):
                 ok = True
             elif clearly_different(v[1], want) or (vec_key == "shape" and "max_shape" in m.sinks and same(v[1], m.sinks["max_shape"][0])):
+                # ASSUMPTION: the multiplied per-axis quantity was read symbolically and is provably another function than the one stored for that
+                # attribute
                 bad = f"`{src(st)[:60]}` multiplies `{v[1]}` per axis, not {what}"
         chk.pat("P2-derived-attributes", st, f"{attr} = np.prod(self._{vec_key})", ok, f"{attr[6:]} = product of {what}", bad, **kw)
     after_prod("self._size", "shape", "the local extents")
@@ -675,6 +825,8 @@ def table_structure(chk, m):
             elif it in ("range(self._ndims)", "range(len(dims_order))") and el in (f"len(eta_grids[dims_order[{t}]])", f"len(eta_grids[self._dims_order[{t}]])"):
                 okf = True
             elif it in ("eta_grids",) and el == f"len({t})" or (it.startswith("range(") and el == f"len(eta_grids[{t}])"):
+                # ASSUMPTION: the comprehension literally runs over eta_grids / range(...) with len(eta_grids[t]) as element (no look-up through
+                # dims_order anywhere in it)
                 badf = (f"`{src(fs)[:70]}` lists the extents in DIMENSION order (eta1, eta2, ...): fullShape must list them in the order of "
                         "this layout's axes, len(eta_grids[d]) for d in dims_order")
     chk.pat("P2-derived-attributes", fs or fn, "self._full_shape = tuple([len(eta_grids[i]) for i in dims_order])", okf,
@@ -684,10 +836,14 @@ def table_structure(chk, m):
     oki = contains(fn, "for i, j in enumerate(self._dims_order):\n    self._inv_dims_order[j] = i", vars=("i", "j")) or \
         contains(fn, "for i, j in enumerate(dims_order):\n    self._inv_dims_order[j] = i", vars=("i", "j")) or \
         contains(fn, "self._inv_dims_order = tuple(np.argsort(dims_order))") or contains(fn, "self._inv_dims_order = tuple(np.argsort(self._dims_order))") or \
-        contains(fn, "self._inv_dims_order = tuple([self._dims_order.index(i) for i in range(self._ndims)])", vars=("i",))
+        contains(fn, "self._inv_dims_order = tuple([self._dims_order.index(i) for i in range(self._ndims)])", vars=("i",)) or \
+        any(contains(fn, f"self._inv_dims_order = {w}(sorted(range({n_}), key={k_}))", vars=("i",))
+            for w in ("tuple", "list") for n_ in ("self._ndims", "len(dims_order)", "len(self._dims_order)")
+            for k_ in ("self._dims_order.__getitem__", "dims_order.__getitem__", "lambda i: self._dims_order[i]", "lambda i: dims_order[i]"))
     badi = None
     if not oki and (contains(fn, "for i, j in enumerate(self._dims_order):\n    self._inv_dims_order[i] = j", vars=("i", "j")) or
                     contains(fn, "for i, j in enumerate(dims_order):\n    self._inv_dims_order[i] = j", vars=("i", "j"))):
+        # ASSUMPTION: the loop literally stores inv[i] = j for i, j in enumerate(dims_order)
         badi = "inv_dims_order[i] = dims_order[i] copies the ordering instead of inverting it (inverse: inv[dims_order[i]] = i)"
     chk.pat("P2-derived-attributes", fn, "inv_dims_order[dims_order[i]] = i", oki, "inv_dims_order is the inverse permutation of dims_order",
             badi, **kw)
@@ -723,6 +879,7 @@ def table_structure(chk, m):
                     base = base.value
                 if isinstance(base, ast.Attribute) and isinstance(base.value, ast.Name) and base.value.id == "self" and base.attr in stored \
                         and base.attr != attr:
+                    # ASSUMPTION: the single return expression is (a subscript of) another STORED table of the layout
                     bad = f"Layout.{prop} returns `{got}`, the table `self.{base.attr}`, not `self.{attr}`"
         chk.pat("P2-accessor", f, q, ok, f"returns {want}", bad, file=U.LAYOUT, func=q, nontrivial=False)
 
@@ -735,8 +892,10 @@ def grid_accessors(chk):
     for m in ("getCoords", "getEta", "getCoordVals", "getGlobalIdxVals", "getGlobalIndices", "get2DSlice", "get1DSlice",
               "get2DSpline", "get1DSpline", "getSpline", "getMin", "getMax", "getBlockForFig", "writeH5Dataset", "loadFromFile"):
         if not mod.has(f"Grid.{m}"):
-            chk.ob("C-sort", mod.cls("Grid"), f"Grid.{m}", None, f"Grid.{m} does not exist any more: its index-space typing cannot be done",
-                   file=U.GRID, func=f"Grid.{m}")
+            # the five local-to-global accessors the property names must be there; the other typed methods are checked where they exist
+            if m in ("getCoords", "getEta", "getCoordVals", "getGlobalIdxVals", "getGlobalIndices"):
+                chk.ob("C-sort", mod.cls("Grid"), f"Grid.{m}", None, f"Grid.{m} does not exist any more: its index-space typing cannot be done",
+                       file=U.GRID, func=f"Grid.{m}")
             continue
         fn = chk.func(U.GRID, f"Grid.{m}")
         env = {a.arg: ("param", a.arg) for a in fn.args.args if a.arg != "self"}
@@ -750,12 +909,31 @@ def grid_accessors(chk):
             chk.ob("C-sort", fn, f"Grid.{m}", None, f"index-space typing of Grid.{m} cannot be done: {e}", file=U.GRID, func=f"Grid.{m}")
     # G-attr: every self.X read in Grid is defined somewhere in the class
     reads, defined = lints.undefined_self_attrs(mod, "Grid")
+    # ASSUMPTION of `read but never defined`: every place that can define an attribute of a Grid was looked at.  Not so when the
+    # class inherits from a class of another module, defines __getattr__/__getattribute__/__slots__, fills self.__dict__ / vars(self),
+    # or declares the attribute at class level with an annotation: then the read is undecided, not a violation
+    gcls = mod.cls("Grid")
+    foreign = [src(b) for b in gcls.bases if src(b) != "object" and not mod.has(src(b).split(".")[-1])]
+    dynamic = any(isinstance(st_, ast.FunctionDef) and st_.name in ("__getattr__", "__getattribute__", "__setattr__") for st_ in gcls.body) or \
+        any(isinstance(x, ast.Attribute) and x.attr == "__dict__" for x in ast.walk(gcls)) or \
+        any(isinstance(x, ast.Call) and src(x.func) == "vars" for x in ast.walk(gcls)) or bool(gcls.decorator_list)
+    declared = {st_.target.id for st_ in gcls.body if isinstance(st_, ast.AnnAssign) and isinstance(st_.target, ast.Name)}
+    if foreign or dynamic:
+        for meth, node in reads[:1]:
+            chk.ob("G1-attribute-defined", node, f"self.{node.attr} in Grid.{meth.name}", None,
+                   f"`self.{node.attr}` has no definition in this module, but Grid " +
+                   (f"inherits from `{foreign[0]}`, which is defined elsewhere" if foreign else "defines its attributes dynamically") +
+                   ": where its attributes come from was not followed", file=U.GRID, func=f"Grid.{meth.name}")
+        reads = []
+    reads = [(meth, node) for meth, node in reads if node.attr not in declared]
     seen = set()
     for meth, node in reads:
         key = (meth.name, node.attr)
         if key in seen:
             continue
         seen.add(key)
+        # ASSUMPTION (checked above): every place that can define an attribute of Grid was looked at (no foreign base class, no dynamic attribute
+        # definition, no class-level declaration)
         chk.ob("G1-attribute-defined", node, f"self.{node.attr} in Grid.{meth.name}", False,
                f"`self.{node.attr}` is read but no code defines it: every call of Grid.{meth.name} raises AttributeError",
                file=U.GRID, func=f"Grid.{meth.name}")
@@ -771,9 +949,27 @@ def grid_accessors(chk):
     r = [n for n in ast.walk(fn) if isinstance(n, ast.Return)]
     ok = len(r) == 1 and _same(r[0].value, "range(self._layout.starts[i], self._layout.ends[i])")
     bad = None
-    if not ok and len(r) == 1 and isinstance(r[0].value, ast.Call) and src(r[0].value.func) == "range" and len(r[0].value.args) == 2 \
-            and not any(isinstance(a, ast.Starred) for a in r[0].value.args):
-        bad = f"`{src(r[0].value)}` is not the range [starts[i], ends[i]) of the axis asked for"
+    if not ok and len(r) == 1:
+        # the same range with its temporaries written out
+        rv = expand(r[0].value, inline_locals(fn))
+        ok = _same(rv, "range(self._layout.starts[i], self._layout.ends[i])")
+        # ASSUMPTION of the diagnosis: both bounds are written with the layout's own tables (self._layout.starts/ends/shape) and the
+        # parameter only; a bound read from another attribute (a cache of the ranges, a property) is not compared here: undecided
+        params = {a.arg for a in fn.args.args}
+
+        def plain(e):
+            for x in ast.walk(e):
+                if isinstance(x, ast.Attribute) and isinstance(x.value, ast.Name) and x.value.id == "self" and x.attr != "_layout":
+                    return False
+                if isinstance(x, ast.Attribute) and src(x.value) == "self._layout" and x.attr not in ("starts", "ends", "shape"):
+                    return False
+                if isinstance(x, ast.Name) and x.id not in params and x.id != "self":
+                    return False
+                if isinstance(x, (ast.Call, ast.Starred, ast.IfExp, ast.Lambda)):
+                    return False
+            return True
+        if not ok and isinstance(rv, ast.Call) and src(rv.func) == "range" and len(rv.args) == 2 and not rv.keywords and all(plain(a) for a in rv.args):
+            bad = f"`{src(r[0].value)}` is not the range [starts[i], ends[i]) of the axis asked for"
     chk.pat("C-sort", fn, "range(starts[i], ends[i])", ok, "global indices of the local block along axis i", bad,
             file=U.GRID, func="Grid.getGlobalIdxVals")
     return n_obs
@@ -856,6 +1052,17 @@ def global_indices_rule(chk):
             if f == "range" and len(e.args) == 1:
                 return PermList(w_id())
             raise _NoRead(f"call `{t[:40]}`")
+        if isinstance(e, ast.BinOp) and isinstance(e.op, ast.Add) and isinstance(e.left, ast.Name) and isinstance(env.get(e.left.id), PerAxis):
+            # `R + list(indices[len(R):])`: the entries beyond the layout's axes are handed through untouched (as `result = list(indices)`
+            # followed by a scatter leaves them): the statement about the first len(R) entries is the one about R
+            r_ = e.right
+            while isinstance(r_, ast.Call) and src(r_.func) in ("list", "tuple") and len(r_.args) == 1:
+                r_ = r_.args[0]
+            if isinstance(r_, ast.Subscript) and isinstance(r_.slice, ast.Slice) and r_.slice.upper is None and r_.slice.step is None \
+                    and r_.slice.lower is not None and src(r_.slice.lower).replace(" ", "") == f"len({e.left.id})" \
+                    and isinstance(r_.value, ast.Name) and isinstance(env.get(r_.value.id), PerAxis) \
+                    and env[r_.value.id].f == IND(a) and env[r_.value.id].w == w_id():
+                return env[e.left.id]
         if isinstance(e, ast.BinOp) and isinstance(e.op, (ast.Add, ast.Sub)):
             x, y = ev(e.left, env), ev(e.right, env)
             for cls_ in (Elem, PerAxis):
@@ -948,6 +1155,8 @@ def global_indices_rule(chk):
     if isinstance(result, PerAxis):
         want_f = IND(a) + TAB["starts"](a)
         if sp.simplify(result.f - want_f) != 0:
+            # ASSUMPTION: the whole body was read as operations on sequences indexed through dims_order / inv_dims_order (any construct outside that
+            # fragment raises _NoRead: undecided)
             bad = (f"entry of the result is `{result.f}` of a layout axis a, not the local index plus the start of that axis "
                    "(indices(a) + starts(a))")
         elif result.w == w_inv(L):
@@ -1044,6 +1253,33 @@ def derived_state(chk):
         return any(isinstance(n, ast.Assign) and any(src(t) == f"self.{a}" for t in n.targets) and
                    any(isinstance(x, ast.Name) and x.id in new for x in ast.walk(n.value)) for n in ast.walk(m_))
     missing = [(m_, n_, a) for m_, n_, a in missing if not from_new_layout(m_, a)]
+
+    # ... or is refreshed by a method of the grid that is called after the layout was rebound (a helper that does the book-keeping), or
+    # by the setter of a `_layout` property (which runs at every rebinding)
+    all_meths = {}
+    for st_ in cls.body:
+        if isinstance(st_, ast.FunctionDef):
+            all_meths.setdefault(st_.name, []).append(st_)
+
+    def assigns(fs, a, depth=3):
+        for f_ in fs:
+            for n in ast.walk(f_):
+                if isinstance(n, ast.Assign) and any(src(t) == f"self.{a}" for t in n.targets):
+                    return True
+                if depth > 0 and isinstance(n, ast.Call) and isinstance(n.func, ast.Attribute) and isinstance(n.func.value, ast.Name) \
+                        and n.func.value.id == "self" and n.func.attr in all_meths and all_meths[n.func.attr] is not fs \
+                        and assigns(all_meths[n.func.attr], a, depth - 1):
+                    return True
+        return False
+
+    def refreshed_by_call(m_, n_, a):
+        for c in ast.walk(m_):
+            if isinstance(c, ast.Call) and isinstance(c.func, ast.Attribute) and isinstance(c.func.value, ast.Name) and c.func.value.id == "self" \
+                    and c.func.attr in all_meths and getattr(c, "lineno", 0) >= n_.lineno and assigns(all_meths[c.func.attr], a):
+                return True
+        return False
+    setters = [f_ for f_ in all_meths.get("_layout", []) if any(src(d).endswith(".setter") for d in f_.decorator_list)]
+    missing = [(m_, n_, a) for m_, n_, a in missing if not refreshed_by_call(m_, n_, a) and not (setters and assigns(setters, a))]
     if "_f" not in derived:
         chk.ob("G4-layout-derived-state", cls0, "self._f is computed from self._layout", None,
                "the data view self._f is no longer recognised as derived from self._layout: the rule cannot tell which attributes are "
@@ -1051,6 +1287,8 @@ def derived_state(chk):
         return
     for meth, node, a in missing:
         dn, dm = derived[a]
+        # ASSUMPTIONS (checked above): the attribute is a cache computed from self._layout (not a data store, not a snapshot), it is not recomputed
+        # from the new layout object, by a helper called afterwards, or by the setter of a `_layout` property
         chk.ob("G4-layout-derived-state", node, f"self.{a} refreshed in Grid.{meth.name}", False,
                f"Grid.{meth.name} rebinds self._layout but leaves `self.{a}` (filled from self._layout in Grid.{dm}, line {dn.lineno}) "
                "as it was: afterwards the accessors answer for the previous layout", file=U.GRID, func=f"Grid.{meth.name}")
@@ -1095,6 +1333,14 @@ def run(chk):
     # Grid buffers are allocated with the advertised size
     from .C04 import alloc_agreement
     alloc_agreement(chk, chk.mod(U.GRID))
-    chk.floor("P2-", 20)
+    # the accessors answer from `self._layout`: it must be the Layout of the layout the grid says it is in, in every state the grid can
+    # reach (the typestate model of C04, of which only this invariant is reported here)
+    from .C04 import typestate
+    try:
+        typestate(chk, chk.mod(U.GRID), chk.mod(U.GRID).cls("Grid"), only={"T3-view-coherence"})
+    except AnalysisError as e:
+        chk.ob("T3-view-coherence", chk.mod(U.GRID).cls("Grid"), "self._layout is the layout named by currentLayout in every reachable state", None,
+               f"cannot decide: {e}", file=U.GRID, func="Grid")
+    chk.floor("P2-", 14)
     chk.floor("C-sort", 4)
     chk.floor("G1-", 1)
